@@ -203,7 +203,9 @@ class WorkStealingScheduling:
         nodes_up = [
             NodePending(node, pending)
             for node, pending in self.node2pending.items()
-            if not node.shutting_down
+            # A replacement node which has not reported its collection yet
+            # does not take part: tests are sent as indices into it.
+            if not node.shutting_down and node in self.node2collection
         ]
 
         def get_idle_nodes() -> list[WorkerController]:
